@@ -4,7 +4,20 @@ import json, os
 V = os.path.dirname(os.path.dirname(os.path.abspath(__file__)))
 props = [json.loads(l) for l in open(os.path.join(V, "properties.jsonl"))]
 
+ABM_TECH = "TLA+ spec (spec/Abm.tla) + TLC exhaustive invariants; TLC-generated behaviours (all short histories + long random ones) replayed into the implementation with the observation compared after every action"
 CHECKS = {
+ "C11": dict(cat="model_checking", ref="6/C11",
+    text="spec/Abm.tla event fragment: TLC checks AtMostOnce, RightAgent, RightStep (sent+1+ceil(delay/dt)), InOrder, ExactlyOnce (receiver alive and handling when due), DueInTime exhaustively for small populations/events/steps over create/delete/set-state/send/step; TLC-generated histories (all of length 4-5, plus long random ones for dt in {1,.5,.1,.25,.2} with on- and off-grid delays, sends from outside and from inside act(), deletions, reconfiguration) are replayed into a real Model with instrumented agents and the handler log is compared after every step",
+    note="trusted: TLC, replay adapter; handling order asserted only between events enqueued in the same step; claims restricted to events whose receiver has a handler in its current state",
+    tech=ABM_TECH),
+ "C12": dict(cat="model_checking", ref="6/C12",
+    text="spec/Abm.tla run loop: Run(start,stop,collect,dt) is the iteration of the scheduler step function; TLC-generated histories mixing create/delete/planned deletions and creations from inside act()/single steps/whole runs with changing dt are replayed; the exact callback sequence begin, (handle, act) per live agent in creation order, end, collect, the step times round+step*dt and the statistics keys are compared",
+    note="agents created/deleted inside act() are excused for that very step; progress-widget path not driven; integer start<=stop in 0..3, dt in {1,.5,.25,.2,.1}",
+    tech=ABM_TECH),
+ "C13": dict(cat="model_checking", ref="6/C13",
+    text="spec/Abm.tla statistics: TLC proves by enumeration (all populations <=3-4 agents, 2 types, 2 states, values {-2,0,1,2.5}, every order) that the incremental collector algorithm (FoldStats) equals the declarative aggregates (Stats); histories with state/value changes from outside and inside act() are replayed and Model.statistics() compared cell by cell; the same populations are run through bptk.run_scenarios in df, dict and json for selections of agents/states/aggregate kinds and every cell compared",
+    note="a time missing from a returned table is read as zero; only states populated at some recorded time are selected (DESIGN 4.4)",
+    tech=ABM_TECH),
  "C14": dict(cat="model_checking", ref="6/C14",
     text="spec/Abm.tla registry fragment: TLC checks UniqueIds, IdsBelowNext, TypeMapExact, CountsAgree and the action property NeverReused exhaustively for <=5 (thorough 7) ids over create/delete(1-2 ids)/configure/reset/set-state; every history of length 4 (thorough 5) enumerated by TLC plus long random TLC behaviours are replayed into a real BPTK_Py.Model and every registry query is compared with the spec after every operation",
     note="trusted: TLC, the ~150-line replay adapter; bounded history length / population; reference agents are plain Agent subclasses",
